@@ -125,6 +125,87 @@ func (l *Loop) InductionDir() (dir int, phi *ssa.Phi) {
 	return 0, nil
 }
 
+// IndexDir is the direction in which the loop walks the slice it indexes: the direction of the induction variable
+// when the index is the variable itself (or the variable plus/minus a loop-invariant), the opposite direction when
+// the index is `invariant - variable` (`for i := range xs { xs[last-i] }` walks xs last to first).  0 = unknown.
+func (l *Loop) IndexDir(isSlice func(ssa.Value) bool) int {
+	dir, phi := l.InductionDir()
+	if phi == nil || dir == 0 {
+		return 0
+	}
+	invariant := func(v ssa.Value) bool {
+		if _, ok := v.(*ssa.Const); ok {
+			return true
+		}
+		if in, ok := v.(ssa.Instruction); ok {
+			return !l.Body[in.Block()]
+		}
+		return true // parameters, globals
+	}
+	res, conflict := 0, false
+	note := func(d int) {
+		if res != 0 && res != d {
+			conflict = true
+		}
+		res = d
+	}
+	var dirOf func(idx ssa.Value, depth int) int
+	dirOf = func(idx ssa.Value, depth int) int {
+		idx = SkipConv(idx)
+		if idx == ssa.Value(phi) {
+			return dir
+		}
+		if depth == 0 {
+			return 0
+		}
+		if bo, ok := idx.(*ssa.BinOp); ok {
+			switch bo.Op {
+			case token.ADD:
+				if invariant(bo.Y) {
+					return dirOf(bo.X, depth-1)
+				}
+				if invariant(bo.X) {
+					return dirOf(bo.Y, depth-1)
+				}
+			case token.SUB:
+				if invariant(bo.Y) {
+					return dirOf(bo.X, depth-1)
+				}
+				if invariant(bo.X) {
+					return -dirOf(bo.Y, depth-1)
+				}
+			}
+		}
+		return 0
+	}
+	for b := range l.Body {
+		for _, in := range b.Instrs {
+			switch x := in.(type) {
+			case *ssa.IndexAddr:
+				if isSlice(x.X) {
+					if d := dirOf(x.Index, 3); d != 0 {
+						note(d)
+					} else {
+						conflict = true
+					}
+				}
+			case *ssa.Index:
+				if isSlice(x.X) {
+					if d := dirOf(x.Index, 3); d != 0 {
+						note(d)
+					} else {
+						conflict = true
+					}
+				}
+			}
+		}
+	}
+	if conflict {
+		return 0
+	}
+	return res
+}
+
 // LoopIndexing finds the loops whose body indexes the given slice value
 // (IndexAddr or Index on v) with the loop's induction variable.
 func LoopIndexing(fn *ssa.Function, isSlice func(ssa.Value) bool) []*Loop {
